@@ -8,8 +8,8 @@
 #include "dump.h"
 #include <sys/wait.h>
 
-enum { CK_BOTH, CK_GROUPLESS, CK_SECTIONS, CK_MULTILINE, CK_EMPTYVAL, CK_EMPTYSEC, CK_MALFORMED, CK_MALF_TEXTAFTER, CK_MALF_EMPTYSEC, CK_MALF_NODELIM, CK_N };
-static const char *CKN[CK_N] = { "both", "group-less only", "sections only", "multi-line values", "empty value", "empty section", "malformed line [x", "malformed line [x] y", "malformed line []", "malformed line key text" };
+enum { CK_BOTH, CK_GROUPLESS, CK_SECTIONS, CK_MULTILINE, CK_EMPTYVAL, CK_EMPTYSEC, CK_PERCENT, CK_MALFORMED, CK_MALF_TEXTAFTER, CK_MALF_EMPTYSEC, CK_MALF_NODELIM, CK_N };
+static const char *CKN[CK_N] = { "both", "group-less only", "sections only", "multi-line values", "empty value", "empty section", "values, keys and a section with % in them", "malformed line [x", "malformed line [x] y", "malformed line []", "malformed line key text" };
 #define NFILES 6   /* 0 usr main, 1 etc main, 2 usr a.conf, 3 usr b.conf, 4 etc a.conf, 5 etc b.conf */
 static const char *FRELN[2][NFILES] = {
   { "/usr/etc/cfg.conf", "/etc/cfg.conf", "/usr/etc/cfg.conf.d/a.conf", "/usr/etc/cfg.conf.d/b.conf", "/etc/cfg.conf.d/a.conf", "/etc/cfg.conf.d/b.conf" },
@@ -49,6 +49,7 @@ static void content(int id, int kind, sbuf *b)
     break;
   case CK_EMPTYVAL: sb_printf(b, "e%d%c\nafter%d%c1\n[S]\nk%cf%d\n", id, d, id, d, d, id); break;
   case CK_EMPTYSEC: sb_printf(b, "g%d%c1\n[E%d]\n[S]\nk%cf%d\n", id, d, id, d, id); break;
+  case CK_PERCENT: sb_printf(b, "q%d%c80%%\nm%d%c100%%%% sure\n%%k%d%c%%d.%%m.%%Y\n[S%%s]\nk%cf%d %%s %%x\n", id, d, id, d, id, d, d, id); break;
   case CK_MALFORMED: sb_printf(b, "ok%d%c1\n[broken%d\nlater%c1\n", id, d, id, d); break;
   case CK_MALF_TEXTAFTER: sb_printf(b, "ok%d%c1\n\n[sec%d] trailing\nlater%c1\n", id, d, id, d); break;
   case CK_MALF_EMPTYSEC: sb_printf(b, "[]\nlater%c1\n", d); break;
